@@ -642,7 +642,8 @@ top:
 		lexer.hexAcc = lexer.hexAcc*16 + d
 		lexer.hexWant--
 		if lexer.hexWant == 0 {
-			if lexer.hexByte {
+			if lexer.hexByte && lexer.hexReturn == LexerStrLit {
+				// in a string \xHH is the byte HH (as in Go); in a character literal it is the rune U+00HH
 				lexer.buffer.WriteByte(byte(lexer.hexAcc))
 			} else {
 				lexer.buffer.WriteRune(lexer.hexAcc)
